@@ -357,6 +357,9 @@ func checkC13(P *Prog, r *Result) {
 	// own Get(K), K with K from the one tag-priority function - a provider that tries the schema key first reads a
 	// sibling's value whenever a schema key equals another field's zog tag (C14's rule)
 	shareRule(P, r, checkC14, "C14/getbyfield-agreement", nil, "C13/parse-reads-the-key-validate-names", 3)
+	// "leave equal values": Validate writes the value only where Parse writes the destination for the same reason -
+	// Default and Catch; a snapshot restored after a failing post-transform is a write Parse does not make (C19's rule)
+	shareRule(P, r, checkC19, "C19/validate-write-sites", nil, "C13/validate-writes-only-default-and-catch", 5)
 }
 
 // deferredUnits: the closures and relevant helpers the node function itself defers.
